@@ -185,32 +185,74 @@ def rule_typed(ctx):
     p = ctx.project
     gt = p.func(LOOK, '_get_type_id')
     xfi = p.func(FUNCS_REL, '_xfilter')
-    chk = xfi.nested.get('check')
     rr.instances += 1
-    if chk is None:
-        raise AnalysisError('_xfilter.check not found')
-    rets = [n.value for n in own_nodes(chk) if isinstance(n, ast.Return)]
-    ok = False
-    for r in rets:
-        if isinstance(r, ast.BoolOp) and isinstance(r.op, ast.And):
-            first = r.values[0]
-            if isinstance(first, ast.Compare) and isinstance(
-                    first.ops[0], ast.Eq) and any(
-                    isinstance(c, ast.Call) and ctx.cg.resolve_name_expr(
-                        chk, c.func) == ('func', gt)
-                    for c in ast.walk(first)) and any(
-                    isinstance(c, ast.Call) and isinstance(c.func, ast.Name)
-                    and c.func.id == 'operator' for v in r.values[1:]
-                    for c in ast.walk(v)):
-                ok = True
-    if ok:
-        rr.ok('criterion check: rank equality is tested before the comparison '
-              '(short-circuit and)', '%s:%d' % (chk.module.rel, chk.lineno))
-    else:
-        rr.fail(key_of(xfi, 'criterion compared across types'),
-                '_xfilter.check no longer tests `rank(value) == rank(criterion)`'
-                ' before applying the comparison operator', file=chk.module.rel,
-                function=chk.qualname, line=chk.lineno)
+    # the comparison operator variable: bound from LOGIC_OPERATORS[...]
+    scopes = [xfi] + list(xfi.nested.values()) + list(xfi.lambdas)
+    opvars = set()
+    from ..util import assign_pairs
+    for t, v, _st in assign_pairs(xfi):
+        if isinstance(t, ast.Name) and isinstance(v, ast.Subscript) and \
+                'LOGIC_OPERATORS' in norm_src(v.value):
+            opvars.add(t.id)
+    if not opvars:
+        raise AnalysisError('_xfilter: comparison operator lookup not found')
+
+    def is_rank_call(g, e, of=None):
+        if not (isinstance(e, ast.Call) and ctx.cg.resolve_name_expr(
+                g, e.func) == ('func', gt) and e.args):
+            return False
+        return of is None or norm_src(e.args[0]) == of
+
+    cmp_calls = []
+    for g in scopes:
+        nodes = own_nodes(g) if g is xfi else ast.walk(g.node)
+        for n in nodes:
+            if isinstance(n, ast.Call) and isinstance(n.func, ast.Name) and \
+                    n.func.id in opvars and n.args:
+                cmp_calls.append((g, n))
+    if not cmp_calls:
+        raise AnalysisError('_xfilter: no call of the comparison operator')
+    for g, call in cmp_calls:
+        val = norm_src(call.args[0])
+        ok = False
+        # (a) rank(value) == rank(criterion) and operator(value, criterion)
+        for n in ast.walk(g.node):
+            if isinstance(n, ast.BoolOp) and isinstance(n.op, ast.And):
+                idx = [i for i, v in enumerate(n.values)
+                       if any(c is call for c in ast.walk(v))]
+                if not idx:
+                    continue
+                for v in n.values[:idx[0]]:
+                    if isinstance(v, ast.Compare) and len(v.ops) == 1 and \
+                            isinstance(v.ops[0], ast.Eq) and (
+                            is_rank_call(g, v.left, val) or
+                            is_rank_call(g, v.comparators[0], val)):
+                        ok = True
+        # (b) operator applied to the elements selected by a rank-equality mask
+        if not ok:
+            for n in ast.walk(g.node):
+                if isinstance(n, (ast.ListComp, ast.GeneratorExp)) and any(
+                        c is call for c in ast.walk(n.elt)):
+                    it = n.generators[0].iter
+                    if isinstance(it, ast.Subscript) and isinstance(
+                            it.slice, ast.Name):
+                        mask = it.slice.id
+                        for t, v, _st in assign_pairs(g):
+                            if isinstance(t, ast.Name) and t.id == mask and \
+                                    isinstance(v, ast.Compare) and len(
+                                    v.ops) == 1 and isinstance(v.ops[0], ast.Eq):
+                                ok = 'mask'
+        if ok:
+            rr.ok('criterion comparison `%s` is applied only to values whose '
+                  'rank equals the criterion\'s (%s)' % (
+                      norm_src(call), 'short-circuit and' if ok is True else
+                      'rank-equality mask; its memo slot is checked by '
+                      'C19.slotmemo'), '%s:%d' % (g.module.rel, call.lineno))
+        else:
+            rr.fail(key_of(xfi, 'criterion compared across types'),
+                    '_xfilter applies the comparison `%s` without first '
+                    'testing `rank(value) == rank(criterion)`' % norm_src(call),
+                    file=g.module.rel, function=g.qualname, line=call.lineno)
     # type_id computed from the criterion with the shared rank function
     rr.instances += 1
     tid = [n for n in own_nodes(xfi) if isinstance(n, ast.Call)
@@ -335,5 +377,9 @@ def run(ctx):
              'SUMIF', 'AVERAGEIF')
     regs = [ctx.registry.functions[n] for n in names
             if n in ctx.registry.functions]
+    from .common import rule_slotmemo
+    fm = [f for f in ctx.project.functions.values()
+          if f.module.rel.startswith('formulas/functions/')]
     return [rule_core(ctx), rule_typed(ctx), r,
-            rule_memo(ctx, 'C19', 'C19.memo', regs)]
+            rule_memo(ctx, 'C19', 'C19.memo', regs),
+            rule_slotmemo(ctx, 'C19', 'C19.slotmemo', fm)]
